@@ -6,10 +6,12 @@
   semantics (Model/PySem, PyRun — tied to CPython and to real probes by the executable correspondence).
 
   `C01_rewrite_refines_reference` (= `instrument_refines`): for EVERY function of the core fragment
-  (`coreF`: names, tuple / nested / starred targets, attribute and subscript stores, augmented and annotated
+  (`coreF`: names, tuple / nested / starred targets, attribute and subscript stores — also element
+  assignment `x[i] = v` through a variable with a constant or a computed index, whose rewriting keeps value and
+  index in temporaries —, chained assignment `a = b = v` (a temporary again), augmented and annotated
   assignment, declarations, walrus, yield, if / while / for / try / with, nested def / class / import,
-  return / raise / break / continue; chained assignment and computed subscripts of a named container are
-  outside), every capture set, every host (whatever calls, arithmetic, iteration, context managers … do),
+  return / raise / break / continue; `global` / `nonlocal` statements, annotated assignment to attributes or
+  elements, and the statement forms the model keeps opaque are outside), every capture set, every host (whatever calls, arithmetic, iteration, context managers … do),
   every handler, every input, every driving script of a generator and every loop bound, the rewritten
   function ends the same way as the reference semantics of the original — same result or exception, same
   world (side effects, in order), same handler state (events), same values yielded and received.
@@ -168,5 +170,25 @@ theorem C01_sample_runs :
     ∧ ((runInstr (ctxOf PyLite.host [⟨none, none⟩] sample 5).envI 5
         (instrument [⟨none, none⟩] sample) sampleState).2.hs.events.map (·.name))
       = ["#enter", "a", "b", "#value", "#exit"] := by decide
+
+/-- a function with a chained assignment and an element assignment through a variable with a computed index
+    (`def f(a): c = b = a; O[b + 1] = c; return c`): both forms need temporaries in the rewritten code and are in
+    the fragment of the theorems -/
+def sample2 : FunDef :=
+  { name := "f", params := [{ name := "a", ann := none }], defaults := [], returns := none, doc := none,
+    body := [.assign [.name "c", .name "b"] (.name "a"),
+             .assign [.sub (.name "O") (.binop "Add" (.name "b") (.int 1))] (.name "c"),
+             .ret (some (.name "c"))], freevars := [] }
+
+theorem C01_sample2_in_fragment : coreF sample2 = true := by decide
+
+/-- a test: run through the rewritten code with every variable captured — the container `O` is reported when it
+    is fetched and again (keyed by the index) when its element is assigned -/
+theorem C01_sample2_runs :
+    isRetInt (runInstr (ctxOf PyLite.host [⟨none, none⟩] sample2 5).envI 5
+        (instrument [⟨none, none⟩] sample2) sampleState).1 5 = true
+    ∧ ((runInstr (ctxOf PyLite.host [⟨none, none⟩] sample2 5).envI 5
+        (instrument [⟨none, none⟩] sample2) sampleState).2.hs.events.map (·.name))
+      = ["#enter", "O", "a", "c", "b", "O", "#value", "#exit"] := by decide +kernel
 
 end Ptera.Props.C01
